@@ -47,8 +47,10 @@ type c03Expect struct {
 	Where   *c03Pred   `json:"where,omitempty"`
 	Having  *c03Pred   `json:"having,omitempty"`
 	Query   string     `json:"query"`
-	Rows    []any      `json:"rows"`    // expected exact sequence
-	Lenient [][]string `json:"lenient"` // per output row: aliases whose value the statement leaves open
+	Limit   int        `json:"limit,omitempty"` // LIMIT n on the grouped query (0 = none)
+	Wrap    string     `json:"wrap,omitempty"`  // "" | derived | cte: the grouped query sits in a derived table / CTE
+	Rows    []any      `json:"rows"`            // expected exact sequence
+	Lenient [][]string `json:"lenient"`         // per output row: aliases whose value the statement leaves open
 }
 
 func (a c03Agg) sql() string {
@@ -95,7 +97,11 @@ func aggValue(a c03Agg, members []map[string]any) (val any, open bool) {
 	}
 	var nums []float64
 	for _, m := range members {
-		if v, ok := m[a.Col].(float64); ok {
+		var cell any = m[a.Col]
+		if a.Col == "o.p" {
+			cell = m["o"].(map[string]any)["p"]
+		}
+		if v, ok := cell.(float64); ok {
 			nums = append(nums, v)
 		}
 	}
@@ -262,7 +268,7 @@ func referenceGroupBy(e *c03Expect, table []any) (rows []any, lenient [][]string
 	return rows, lenient, true
 }
 
-var c03NumCols = []string{"x", "y", "z"} // x has NULLs; y, z are NULL-free
+var c03NumCols = []string{"x", "y", "z", "o.p"} // x has NULLs; y, z and the nested o.p are NULL-free
 
 func drawWherePred(t *rapid.T, depth int) *c03Pred {
 	if depth >= 1 || rapid.IntRange(0, 2).Draw(t, "w_leaf") > 0 {
@@ -307,6 +313,7 @@ func genC03(t *rapid.T) *Bundle {
 			"g3": rapid.SampledFrom([]any{"u", "v"}).Draw(t, "g3"),
 			"y":  float64(rapid.IntRange(0, 3).Draw(t, "y")),
 			"z":  float64(rapid.IntRange(-2, 2).Draw(t, "z")),
+			"o":  map[string]any{"p": float64(rapid.IntRange(0, 3).Draw(t, "op"))},
 		}
 		if rapid.IntRange(0, 3).Draw(t, "x_null") == 0 {
 			row["x"] = nil
@@ -366,8 +373,52 @@ func genC03(t *rapid.T) *Bundle {
 	if e.Having != nil {
 		q += " HAVING " + e.Having.sql()
 	}
+	var second *c03Expect
+	switch w := rapid.IntRange(0, 7).Draw(t, "wrap"); {
+	case w == 0:
+		e.Wrap = "derived"
+		q = "SELECT * FROM (" + q + ") d"
+	case w == 1:
+		e.Wrap = "cte"
+		q = "WITH c AS (" + q + ") SELECT * FROM c"
+	case w == 2 && !whole:
+		// LIMIT cuts the list of groups, never the members of a group
+		e.Limit = rapid.IntRange(1, 4).Draw(t, "limit")
+		q += fmt.Sprintf(" LIMIT %d", e.Limit)
+	case w == 3 && whole:
+		// two CTEs computing the same aggregates (identical text) over different WHERE clauses
+		e.Wrap = "two_ctes"
+		cp := *e
+		cp.Where = drawWherePred(t, 0)
+		second = &cp
+		q2 := "SELECT " + strings.Join(sel, ", ") + " FROM t WHERE " + cp.Where.sql()
+		q = "WITH c1 AS (" + q + "), c2 AS (" + q2 + ") SELECT (SELECT * FROM `<-c1`) AS a, (SELECT * FROM `<-c2`) AS b FROM dual"
+	}
 	e.Query = q
 	rows, lenient, ok := referenceGroupBy(e, table)
+	if e.Wrap == "derived" {
+		for i := range rows {
+			rows[i] = map[string]any{"d": rows[i]}
+		}
+	}
+	if e.Limit > 0 && len(rows) > e.Limit {
+		rows = rows[:e.Limit]
+		if len(lenient) > e.Limit {
+			lenient = lenient[:e.Limit]
+		}
+	}
+	if second != nil && ok {
+		rows2, len2, ok2 := referenceGroupBy(second, table)
+		ok = ok2
+		if ok2 {
+			// open (all-NULL) aggregates cannot be expressed through the nesting: skip such cases
+			if len(lenient[0]) > 0 || len(len2[0]) > 0 {
+				ok = false
+			}
+			rows = []any{map[string]any{"a": []any{rows[0]}, "b": []any{rows2[0]}}}
+			lenient = [][]string{nil}
+		}
+	}
 	tags := []string{}
 	if !ok {
 		tags = append(tags, "open_outcome")
@@ -414,6 +465,14 @@ func numClose(a, b any) bool {
 func c03RowEqual(got, want any, open []string) bool {
 	g, ok1 := got.(map[string]any)
 	w, ok2 := want.(map[string]any)
+	if ok1 && ok2 && len(g) == 1 && len(w) == 1 {
+		// a row of a derived table: {"d": row}
+		if gd, ok := g["d"].(map[string]any); ok {
+			if wd, ok := w["d"].(map[string]any); ok {
+				g, w = gd, wd
+			}
+		}
+	}
 	if !ok1 || !ok2 || len(g) != len(w) {
 		return false
 	}
@@ -571,12 +630,12 @@ func multisetEqualLenient(got, want []any, lenient [][]string) bool {
 func corpusC03() []*Bundle {
 	n := func(v float64) any { return v }
 	table := []any{
-		map[string]any{"g1": "a", "g2": n(1), "g3": "u", "x": n(1), "y": n(2), "z": n(-1)},
-		map[string]any{"g1": "b", "g2": n(1), "g3": "u", "x": nil, "y": n(3), "z": n(2)},
-		map[string]any{"g1": "a", "g2": n(2), "g3": "v", "x": n(5), "y": n(1), "z": n(0)},
-		map[string]any{"g1": nil, "g2": n(1), "g3": "u", "x": n(4), "y": n(0), "z": n(1)},
-		map[string]any{"g1": "b", "g2": n(1), "g3": "v", "x": n(2), "y": n(3), "z": n(-2)},
-		map[string]any{"g1": "c", "g2": nil, "g3": "v", "x": nil, "y": n(1), "z": n(1)},
+		map[string]any{"g1": "a", "g2": n(1), "g3": "u", "x": n(1), "y": n(2), "z": n(-1), "o": map[string]any{"p": n(1)}},
+		map[string]any{"g1": "b", "g2": n(1), "g3": "u", "x": nil, "y": n(3), "z": n(2), "o": map[string]any{"p": n(2)}},
+		map[string]any{"g1": "a", "g2": n(2), "g3": "v", "x": n(5), "y": n(1), "z": n(0), "o": map[string]any{"p": n(0)}},
+		map[string]any{"g1": nil, "g2": n(1), "g3": "u", "x": n(4), "y": n(0), "z": n(1), "o": map[string]any{"p": n(3)}},
+		map[string]any{"g1": "b", "g2": n(1), "g3": "v", "x": n(2), "y": n(3), "z": n(-2), "o": map[string]any{"p": n(1)}},
+		map[string]any{"g1": "c", "g2": nil, "g3": "v", "x": nil, "y": n(1), "z": n(1), "o": map[string]any{"p": n(2)}},
 	}
 	mk := func(name string, e c03Expect, tbl []any) *Bundle {
 		var sel []string
